@@ -217,6 +217,12 @@ func init() {
 		}
 		return Bool{BVUlt(wide(x), wide(y))}
 	}
+	// vConcreteLen: whether the length of a byte string is a constant on this path (models choose
+	// between a one-query encoding and a byte-wise fallback)
+	harnessAPI["vConcreteLen"] = func(e *Engine, st *State, a []Value, ci ssa.CallInstruction) Value {
+		x := a[0].(Slice)
+		return Bool{BoolC(x.Len.IsConst())}
+	}
 	harnessAPI["vObserve"] = func(e *Engine, st *State, a []Value, ci ssa.CallInstruction) Value {
 		label := e.cstr(st, a[0])
 		s := label + "="
